@@ -5,6 +5,22 @@ import json
 ALL = [f"C{i:02d}" for i in range(1, 20)]
 
 CHECKS = {
+    "C03": dict(
+        category="model_checking", engine="E1+E5", design_ref="DESIGN.md 2.1, 2.6, 3/C03",
+        technique="explicit event-sequence exploration of the writer state machine on the real writers + bounded-exhaustive comparison with an independent reference serializer",
+        text=("Leg 1: every well-nested writer event sequence over all tree shapes with <= 3 (thorough 4) elements and <= 2 (3) non-default labels x 12 user prefix maps (default "
+              "namespace, collisions with generated prefixes, duplicate URIs, reserved/invalid prefixes, empty URI) is fed to the real XmlEventWriter, LxmlEventWriter and LxmlTreeBuilder; "
+              "the result must be a library error or a document that expat and strict libxml2 accept and whose infoset (QName values resolved in scope) is the tree the events denote; "
+              "distinct canonical EventHandler states and transitions are counted. Leg 2: G-model models x instances x prefix maps x both writers against vmc/refser.py, an independent "
+              "reading of the documented metadata that never touches XmlMeta/XmlVar/EventGenerator."),
+        note="trusted: expat, libxml2, vmc/refser.py; where the docs are silent (nil on empty nillable values) the reference accepts both spellings"),
+    "C11": dict(
+        category="exploration", engine="E1", design_ref="DESIGN.md 2.5 (G-tree), 3/C11",
+        technique="bounded-exhaustive enumeration of generic XML trees x wildcard placements x handlers x writers with infoset round-trip and tree-parser agreement oracles",
+        text=("Every G-tree document (all shapes with <= 3 (thorough 4) elements, <= 2 (3) non-default labels over namespace modes incl. default-namespace re-/un-declaration and prefix "
+              "re-binding, namespaced / QName-valued attributes, xsi:type'd primitives, text and tails) is placed under 8 wildcard placements; the parsed generic tree must have the shape an "
+              "independent expat-based converter derives, render(parse(d)) must have d's infoset (whitespace-only text next to children excepted), the stand-alone TreeParser and both handlers must agree."),
+        note="generated documents are self-checked with expat + libxml2 before use; two open known findings"),
     "C14": dict(
         category="model_checking", engine="E2", design_ref="DESIGN.md 2.2, 3/C14",
         technique="explicit-state breadth-first search over operation histories on the real objects, canonical state hashing, differential oracle shared-vs-fresh on every transition",
